@@ -19,7 +19,7 @@ impl Limits {
         Limits { max_input_len: 600, max_work: 60_000, big_aggs: true, mt: false, generic_fields: true }
     }
     pub fn thorough() -> Self {
-        Limits { max_input_len: 40_000, max_work: 6_000_000, big_aggs: true, mt: false, generic_fields: true }
+        Limits { max_input_len: 8_000, max_work: 800_000, big_aggs: true, mt: false, generic_fields: true }
     }
     pub fn small() -> Self {
         Limits { max_input_len: 120, max_work: 4_000, big_aggs: false, mt: false, generic_fields: true }
